@@ -344,6 +344,7 @@ func main() {
 				}
 			}
 			comboStart := time.Now()
+			vioAtStart := len(res.Violations)
 			// a second client of the same server whose transport accepts at most 8 bytes of reply (Rpc!CallOverLimit)
 			var clLimited *verifrpc.FStoreClient
 			if kind == "http" {
@@ -353,7 +354,14 @@ func main() {
 			}
 			for i, seq := range cases {
 				if time.Since(comboStart) > 90*time.Second {
-					res.Unusable = append(res.Unusable, fmt.Sprintf("%s: abandoned after %v and %d calls (a combination takes about a second)\n%s", label, time.Since(comboStart).Round(time.Second), res.PerCombo[label], driverStacks()))
+					// a combination that crawls is a sick harness, not evidence: what it reported so far is set aside too
+					dropped := res.Violations[vioAtStart:]
+					first := ""
+					if len(dropped) > 0 {
+						first = " first: " + dropped[0].Text
+					}
+					res.Violations = res.Violations[:vioAtStart]
+					res.Unusable = append(res.Unusable, fmt.Sprintf("%s: abandoned after %v and %d calls (a combination takes about a second); %d observation(s) of this combination set aside.%s\n%s", label, time.Since(comboStart).Round(time.Second), res.PerCombo[label], len(dropped), first, driverStacks()))
 					break
 				}
 				// single calls always; call pairs rotate over the combinations (those that start with a fault always run)
